@@ -3,6 +3,7 @@
 mod client;
 mod life;
 mod net;
+mod tlsgrid;
 mod mockio;
 mod points;
 mod util;
@@ -311,6 +312,7 @@ async fn run_case(line: &str) -> String {
         "cl" => client::run_cl(&tok).await,
         "life" => life::run_life(&tok).await,
         "net" => net::run_net(&tok).await,
+        "tls" => tlsgrid::run_tls(&tok).await,
         other => format!("unknown-suite {other}"),
     }
 }
@@ -364,6 +366,8 @@ fn main() {
             Ok(x) => x,
             Err(_) => "harness-panic".to_string(),
         };
-        writeln!(out, "{res}").unwrap();
+        // third-party code may print to stdout: result lines carry a marker
+        writeln!(out, "@@{res}").unwrap();
+        out.flush().unwrap();
     }
 }
